@@ -177,9 +177,10 @@ fn gen_ts(rng: &mut Rng) -> String {
 
 /// a whole notarized V2 transaction: root + (k-1) direct children; mostly valid, one limit pushed to its boundary
 fn gen_tx2(rng: &mut Rng, cfg_s: &str, cfg: &TransactionValidationConfig, out: &mut dyn Write) {
-    let (req, net0) = gen_net(rng);
+    let req_v: Option<u8> = if rng.chance(1, 5) { None } else { Some(0xf2) };
+    let (req, net0) = (req_v.map(|r| r.to_string()).unwrap_or("-".into()), req_v.unwrap_or(rng.below(256) as u8));
     let k = if cfg.max_subintent_depth == 0 { 1 } else { 1 + rng.below(5) };
-    let bps = match rng.below(5) { 0 => near(rng, cfg.min_tip_basis_points as u64), 1 => near(rng, cfg.max_tip_basis_points as u64), _ => (cfg.min_tip_basis_points as u64).max(0) }.min(u32::MAX as u64);
+    let bps = match rng.below(12) { 0 => near(rng, cfg.min_tip_basis_points as u64), 1 => near(rng, cfg.max_tip_basis_points as u64), _ => cfg.min_tip_basis_points as u64 }.min(u32::MAX as u64);
     let anchor = rng.below(50_000);
     // which limit this case aims at
     let aim = rng.below(9);
@@ -208,7 +209,7 @@ impl Area for A {
         for _ in 0..n {
             let cfg_s = gen_cfg(rng);
             let cfg = parse_cfg(&cfg_s).unwrap();
-            match rng.below(16) {
+            match rng.below(21) {
                 0..=2 => {
                     let (req, net) = gen_net(rng);
                     let (s, e) = gen_epochs(rng, cfg.max_epoch_range);
@@ -624,7 +625,8 @@ impl Runner for R {
                 });
                 let tx = match built { Ok(t) => t, Err(m) => return Answer::ok(format!("build-panic {}", m)) };
                 let prepared = match tx.to_raw().map_err(|e| format!("{:?}", e)).and_then(|raw| raw.prepare(PreparationSettings::latest_ref()).map_err(|e| format!("{:?}", e))) {
-                    Ok(p) => p,
+                    Ok(PreparedUserTransaction::V2(p)) => p,
+                    Ok(_) => return Answer::ok("prepare-error not-v2"),
                     Err(e) => return Answer::ok(format!("prepare-error {}", e)),
                 };
                 let v = validator(cfg, req);
